@@ -14,12 +14,15 @@
    namespaces under pairwise different prefixes, none a built-in prefix or the word
    "default", pairwise different URIs, optionally a default namespace — re-creates those
    bindings (C01_prefix_block), so that for such a bundle-free document no hypothesis about
-   the reader's manager is left (C01_document_roundtrip_plain).  Open: managers that are
-   not plain (the three situations of findings C01-F1..F3 are among them) and documents
-   with bundles (C01-F4) — decided per run by the correspondence and the strict-content
-   round trip oracle (partial). *)
+   the reader's manager is left (C01_document_roundtrip_plain); documents with bundles:
+   each bundle is read in the scope its own prefix block and the document's manager give
+   and attached under the URI its key denotes there (C01_document_roundtrip), provided the
+   keys are pairwise different strings and denote pairwise different URIs.  Open: managers
+   that are not plain, bundle keys that denote another URI in the bundle's scope or collide
+   (findings C01-F1..F4 live exactly there) — decided per run by the correspondence and the
+   strict-content round trip oracle (partial). *)
 From Coq Require Import String List ZArith Bool Permutation.
-From Prov Require Import Str Sexp Tables Nsm NsmProofs Values Record World Jtree Json JsonProofs IsoProofs TimeProofs JsonRecProofs JsonContProofs JsonPrefixProofs JsonDocProofs.
+From Prov Require Import Str Sexp Tables Nsm NsmProofs Values Record World Jtree Json JsonProofs IsoProofs TimeProofs JsonRecProofs JsonContProofs JsonPrefixProofs JsonDocProofs JsonBundleProofs.
 Import ListNotations.
 Open Scope string_scope.
 
@@ -166,6 +169,32 @@ Example C01_document_roundtrip_plain_applies :
   decode_doc [] (encode_doc (mkD y_b []))
   = OK (mkD (add_all (with_ns (bundle_init None) x_m) (map renorm (grouped (brecs y_b)))) []).
 Proof. exact json_doc_roundtrip_plain_applies. Qed.
+
+(* ---- documents with bundles.  bundle_ok ft pm b x: x records what the reader does with bundle b below a document
+   whose manager is pm — the manager br_m its prefix block gives, in which b's records are rec_ok; the identifier
+   br_q its key resolves to there; the manager and identifier after homing it (br_m2, br_q2).  read_bundle: the
+   bundle as read, keyed by the URI of br_q2. *)
+Theorem C01_document_roundtrip : forall ft d m xs,
+  dbundles d <> [] ->
+  match encode_prefixes (bns (dmain d)) with
+  | [] => m = nsm_init
+  | ps => decode_prefixes nsm_init ps = OK m
+  end ->
+  Forall (rec_ok None ft m) (brecs (dmain d)) ->
+  NoDup (map (fun kb => bkey (snd kb)) (dbundles d)) ->
+  Forall2 (bundle_ok ft m) (map snd (dbundles d)) xs ->
+  NoDup (map (fun x => qn_uri (br_q2 x)) xs) ->
+  decode_doc ft (encode_doc d)
+  = OK (mkD (add_all (with_ns (bundle_init None) m) (map renorm (grouped (brecs (dmain d)))))
+            (map (fun bx => read_bundle (fst bx) (snd bx)) (combine (map snd (dbundles d)) xs))).
+Proof. exact json_doc_roundtrip. Qed.
+Print Assumptions C01_document_roundtrip.
+
+Example C01_document_roundtrip_applies :
+  decode_doc [] (encode_doc z_doc)
+  = OK (mkD (add_all (with_ns (bundle_init None) x_m) (map renorm (grouped (brecs y_b))))
+            [read_bundle z_bundle z_read]).
+Proof. exact json_doc_roundtrip_applies. Qed.
 
 (* the premises hold for a container with a repeated identifier, an anonymous relation and a multi-valued
    attribute; the grouped order is computed *)
